@@ -29,6 +29,7 @@ inductive Op where
   | didupdate (m : DidUpdateMsg)
   | delegate (creator : Addr) (val : ValAddr) (amount : Int)
   | undelegate (creator : Addr) (val : ValAddr) (amount : Int)
+  | redelegate (creator : Addr) (src dst : ValAddr) (amount : Int)
   | restart
   | genesis
   | unmodelled (k : String)
@@ -87,6 +88,7 @@ def stepC (e : Env) (s : State) : Op → Res × State
   | .didupdate m => atomic s (didUpdate s m)
   | .delegate _ _ _ => (.ok, s)
   | .undelegate _ _ _ => (.ok, s)
+  | .redelegate _ _ _ _ => (.ok, s)
   | .restart => (.ok, s)
   | .genesis => (.ok, exportImport s)
   | .unmodelled _ => (.ok, s)
@@ -97,6 +99,7 @@ def stepBase (e : Env) (y : Sys) (op : Op) : Res × Sys :=
   match op with
   | .delegate c v a => stakeStep y.st (stakeDelegate e y.st y.global c v a)
   | .undelegate c v a => stakeStep y.st (stakeUndelegate e y.st y.global c v a)
+  | .redelegate c v1 v2 a => stakeStep y.st (stakeRedelegate e y.st y.global c v1 v2 a)
   | .restart => (.ok, ⟨y.st, 0⟩)
   | .genesis => (.ok, ⟨exportImport y.st, y.global⟩)
   | op => ((stepC e y.st op).1, ⟨(stepC e y.st op).2, y.global⟩)
